@@ -383,6 +383,35 @@ func checkC19(c *Ctx) {
 				}
 			case ssa.CallInstruction:
 				if cal := x.Common().StaticCallee(); cal != nil && cal.Signature.Recv() != nil && strings.HasSuffix(typeShort(cal.Signature.Recv().Type()), "lib.RegConfig") {
+					// a copy helper: a method that only assigns fields of its receiver from the same-named fields of
+					// its one RegConfig parameter (straight-line, no calls) and is handed the new configuration - its
+					// assignments are OnReload's
+					if len(cal.Params) == 2 && len(x.Common().Args) == 2 && pathOf(x.Common().Args[1]) == newCfg && len(cal.Blocks) == 1 {
+						pure, src := true, pname(cal.Params[1])
+						var copied []string
+						eachInstr(cal, func(in2 ssa.Instruction) {
+							switch y := in2.(type) {
+							case ssa.CallInstruction:
+								pure = false
+							case *ssa.Store:
+								o, fld, ok := fieldOwner(y.Addr)
+								fa, isFA := y.Addr.(*ssa.FieldAddr)
+								if !ok || o != "lib.RegConfig" || !isFA || fa.X != ssa.Value(cal.Params[0]) || pathOf(y.Val) != src+"."+fld {
+									pure = false
+									return
+								}
+								copied = append(copied, fld)
+							}
+						})
+						if pure && len(copied) > 0 {
+							for _, fld := range copied {
+								if _, tracked := need[fld]; tracked {
+									need[fld] = true
+								}
+							}
+							return
+						}
+					}
 					rv := recvOf(x.Common())
 					if rv != nil && strings.HasSuffix(pathOf(rv), ".RegConfig") && !strings.HasPrefix(pathOf(rv), newCfg) && mutatesReceiver(cal) {
 						r.Bad("C19.2", "OnReload: calls "+cal.Name()+" on the live configuration", in.Pos(), fnName(f),
@@ -594,6 +623,73 @@ type listLoop struct {
 	field        string
 	header, body *ssa.BasicBlock
 	done         *ssa.BasicBlock
+	// elem: how the loop element's access path starts / what it contains ("."+field+"[" for a loop over the field
+	// itself, "<param>[" for a loop over a slice parameter of a helper that is handed the field)
+	elem      string
+	elemIsPfx bool
+	fields    []string // the enforced lists this loop stands for
+}
+
+// listHelperLoops: f is a helper of the package that is handed an enforced list (a load of RegConfig.<list>) as a slice
+// argument and ranges over that parameter: the loop stands for a loop over each list it is handed.
+func listHelperLoops(f *ssa.Function) []listLoop {
+	var out []listLoop
+	if f.Signature.Recv() != nil && false {
+		return nil
+	}
+	for pi, prm := range f.Params {
+		if _, isSlice := prm.Type().Underlying().(*types.Slice); !isSlice {
+			continue
+		}
+		// which lists reach this parameter?
+		var fields []string
+		sites, asValue := callersOf(f)
+		if asValue {
+			continue
+		}
+		all := len(sites) > 0
+		for _, sc := range sites {
+			args := sc.Common().Args
+			if pi >= len(args) {
+				all = false
+				continue
+			}
+			u, ok := args[pi].(*ssa.UnOp)
+			if !ok {
+				all = false
+				continue
+			}
+			o, fld, ok := fieldOwner(u.X)
+			if !ok || o != "lib.RegConfig" || !c19Lists[fld] {
+				all = false
+				continue
+			}
+			fields = append(fields, fld)
+		}
+		if !all || len(fields) == 0 {
+			continue
+		}
+		for _, b := range f.Blocks {
+			if b.Comment != "rangeindex.loop" || len(b.Succs) != 2 {
+				continue
+			}
+			iff, ok := b.Instrs[len(b.Instrs)-1].(*ssa.If)
+			if !ok {
+				continue
+			}
+			bo, ok := iff.Cond.(*ssa.BinOp)
+			if !ok {
+				continue
+			}
+			ln, ok := bo.Y.(*ssa.Call)
+			if !ok || len(ln.Call.Args) != 1 || ln.Call.Args[0] != ssa.Value(prm) {
+				continue
+			}
+			sort.Strings(fields)
+			out = append(out, listLoop{field: strings.Join(fields, "+"), header: b, body: b.Succs[0], done: b.Succs[1], elem: pname(prm) + "[", elemIsPfx: true, fields: fields})
+		}
+	}
+	return out
 }
 
 // listLoops finds `for range c.<list>` loops over the parsed lists.
@@ -623,7 +719,10 @@ func listLoops(f *ssa.Function) []listLoop {
 		if !ok || o != "lib.RegConfig" || !c19Lists[fld] {
 			continue
 		}
-		out = append(out, listLoop{fld, b, b.Succs[0], b.Succs[1]})
+		out = append(out, listLoop{field: fld, header: b, body: b.Succs[0], done: b.Succs[1], elem: "." + fld + "[", fields: []string{fld}})
+	}
+	if len(out) == 0 {
+		out = listHelperLoops(f)
 	}
 	return out
 }
@@ -773,14 +872,19 @@ func checkC19Enforcement(c *Ctx) {
 			headers[l.header.Instrs[0]] = true
 		}
 		for _, l := range loops {
-			nLoops++
-			seenList[l.field] = true
+			nLoops += len(l.fields)
+			for _, fld := range l.fields {
+				seenList[fld] = true
+			}
 			isMatch := func(in ssa.Instruction) bool {
 				cl, ok := in.(*ssa.Call)
 				if !ok || !matchers[calleeName(&cl.Call)] {
 					return false
 				}
-				return strings.Contains(pathOf(recvOf(&cl.Call)), "."+l.field+"[")
+				if l.elemIsPfx {
+					return strings.HasPrefix(pathOf(recvOf(&cl.Call)), l.elem)
+				}
+				return strings.Contains(pathOf(recvOf(&cl.Call)), l.elem)
 			}
 			matchCalls := map[ssa.Instruction]bool{}
 			matchTrue := map[edge]bool{}
@@ -825,13 +929,16 @@ func checkC19Enforcement(c *Ctx) {
 				}
 				return in.Block() == l.done
 			}, inSet(blockH), matchTrue)
-			switch {
-			case hitA:
-				r.Bad("C19.4", label+" can skip an entry", l.header.Instrs[0].Pos(), fnName(f), "an iteration can continue to the next entry without testing the current one: that accepted entry is not enforced", r.blockPath(f, wA)...)
-			case hitB:
-				r.Bad("C19.4", label+" can stop before the last entry without a match", l.header.Instrs[0].Pos(), fnName(f), "the loop can be left (break / return) on a non-matching entry: the entries after it are not enforced", r.blockPath(f, wB)...)
-			default:
-				r.OK("C19.4", label+" tests every entry until one matches", l.header.Instrs[0].Pos(), fmt.Sprintf("%d match call(s); early exit only on a match", len(matchCalls)))
+			for _, fld := range l.fields {
+				label := fnName(f) + ": loop over " + fld
+				switch {
+				case hitA:
+					r.Bad("C19.4", label+" can skip an entry", l.header.Instrs[0].Pos(), fnName(f), "an iteration can continue to the next entry without testing the current one: that accepted entry is not enforced", r.blockPath(f, wA)...)
+				case hitB:
+					r.Bad("C19.4", label+" can stop before the last entry without a match", l.header.Instrs[0].Pos(), fnName(f), "the loop can be left (break / return) on a non-matching entry: the entries after it are not enforced", r.blockPath(f, wB)...)
+				default:
+					r.OK("C19.4", label+" tests every entry until one matches", l.header.Instrs[0].Pos(), fmt.Sprintf("%d match call(s); early exit only on a match", len(matchCalls)))
+				}
 			}
 		}
 		// (c) a permissive answer is never given without consulting a list
